@@ -143,6 +143,28 @@ CHECKS["C10"] = dict(
 CHECKS["C05"]["engine"] = "iovec_mc+hcobs_mc"
 CHECKS["C05"]["text"] += " The same liveness check runs on every slice exposed by Encoder / Decoder consumers over the HCOBS input families (anchored input included), and after decode errors followed by an arena flush."
 
+STREAM_FAMILIES = "Streams: (i) ALL byte streams over {FE, FD, 00, 01, 61, FF} up to length 6 (quick) / 8 (thorough); (ii) crash histories: every log of <= 2 (quick) / 3 (thorough) records from 7 payloads (empty, 'a', FE FD, 251 / 252 / 253 bytes, FE FE FE), intact, truncated at every byte with and without a restarted writer, and with single bytes replaced by FE / FD / FF / 00; alignment streams x^a . q . x^b. Block sizes 0, 1, 2, 3, 4, 5, 8, 64 (+ 255, 256 and the 512 KiB default on logs). Reader schedules: full reads, always-1, always-2, alternate 1/3, and every single deviation (a 1-byte read, or a burst of 1 / 3 / 40 Interrupted results) at every reader call (every pair for length <= 4 in the thorough tier)."
+CHECKS["C06"] = dict(
+    engine="stream_mc",
+    category="fault_enumeration",
+    design="DESIGN.md section 4, C06",
+    technique="exhaustive enumeration of byte streams and crash/corruption histories x block sizes x reader deviation schedules (short reads, EINTR bursts; deviation-bounded) x judges on the real StreamReader, reference record list as oracle",
+    text=STREAM_FAMILIES + " Judges: (inf, none), (1, none), (0, none), a custom judge that skips the first record, and (inf, L) for every offset limit L <= len+1. The sequence of (decoded bytes, byte range) until the first None must equal the reference (left-to-right FE FD split, reference HCOBS decoder, size and offset rules), three more calls must return None, last_sentinel_offset must be exact, everything shown to the judge or returned must lie in live arena memory, nothing may panic or leak.",
+    note="Hard I/O errors (DESIGN observation O1) and custom judges that skip on an empty range are outside the enumerated space; streams longer than the bounds only through family (ii).",
+)
+CHECKS["C08"] = dict(
+    engine="stream_mc",
+    category="fault_enumeration",
+    design="DESIGN.md section 4, C08",
+    technique="exhaustive enumeration of byte streams x block sizes x reader deviation schedules x arena states on the real StreamChunker::pump, tiling oracle",
+    text=STREAM_FAMILIES + " Arena states: fresh, one byte remaining, shared with a live iovec. Up to Eof the Data slices and sentinels must concatenate to the stream, each reported offset must be the absolute end of its chunk, no Data chunk may be empty or contain FE FD, FE|FD may not straddle two consecutive Data chunks, Eof only at the real end and sticky, every Data slice must stay alive and intact while held (also after the arena flushes its cache), no leak.",
+    note="Hard I/O errors are outside the enumerated schedules.",
+)
+CHECKS["C05"]["engine"] = "iovec_mc+hcobs_mc+stream_mc"
+CHECKS["C05"]["text"] += " StreamChunker chunks, everything the StreamReader shows its judge and every returned record are checked the same way over the crash-history streams."
+CHECKS["C10"]["engine"] = "iovec_mc+hcobs_mc+stream_mc"
+CHECKS["C10"]["text"] += " StreamReader: 12 MiB (quick) / 48 MiB (thorough) streams of seven kinds (empty, invalid, 1-byte, 300-byte, 5000-byte records, delimiter-free invalid garbage, a delimiter-free endless record the judge declares too big) x block sizes {4096, 65536, default} with the same footprint and chunk-plateau bounds, and a leak check after every StreamReader / StreamChunker run."
+
 ALL = ["C%02d" % i for i in range(1, 21)]
 
 NOT_YET = "check not built yet (work in progress; see DESIGN.md section 4 for the planned bounded-exhaustive formulation)"
